@@ -290,6 +290,24 @@ func init() {
 			o.Emit(Case{Term: N("c12hist"), Obs: N("obs", B(r1 == r2)),
 				Meta: map[string]interface{}{"cold": r1, "afterOtherRequest": r2}, Nontrivial: true})
 		}
+		// (D111) a Go type bound by position only: no object type has its name, no @go, no RegisterType
+		{
+			mk := func() *ggql.Root {
+				m := &c12ThingModel{Name: "n"}
+				root := ggql.NewRoot(&c12PosSchema{Query: &c12PosQuery{Thing: m, Node: m}})
+				if err := root.ParseString("interface Node { name: String }\ntype Thing implements Node { name: String }\ntype Query { thing: Thing node: Node }"); err != nil {
+					panic(err)
+				}
+				return root
+			}
+			root := mk()
+			r1 := canon(safeResolve(root, `{ node { __typename name } }`, "", nil))
+			safeResolve(root, `{ thing { name } }`, "", nil)
+			r2 := canon(safeResolve(root, `{ node { __typename name } }`, "", nil))
+			o.Count("class=history-dependence-by-position")
+			o.Emit(Case{Term: N("c12pos"), Obs: N("obs", B(r1 == r2)),
+				Meta: map[string]interface{}{"cold": r1, "afterObjectPosition": r2}, Nontrivial: true})
+		}
 		deadlocks := 0
 		for it := 0; it < iters; it++ {
 			n := 2 + rng.Intn(15)
@@ -511,3 +529,10 @@ var c12WideReqs = func() []c12Req {
 	}
 	return append(out, c12Req{"{ any { __typename tag } }", nil, "wide-iface"})
 }()
+
+type c12ThingModel struct{ Name string }
+type c12PosQuery struct {
+	Thing *c12ThingModel
+	Node  interface{}
+}
+type c12PosSchema struct{ Query *c12PosQuery }
